@@ -10,7 +10,7 @@ cp "$src/demo_$id.py" "$wt/"
 ( cd "$wt" && PYTHONPATH="$wt:/tmp/seedkit" /venv/bin/python demo_$id.py > /tmp/confirm_$id.clean 2>&1 ); rc_clean=$?
 if ! git -C "$wt" apply "$patch"; then echo "$id: patch does not apply"; git -C /repo worktree remove --force "$wt"; exit 3; fi
 ( cd "$wt" && PYTHONPATH="$wt:/tmp/seedkit" /venv/bin/python demo_$id.py > /tmp/confirm_$id.seeded 2>&1 ); rc_seeded=$?
-( cd "$wt" && rm -rf .hypothesis && PYTHONPATH="$wt" /venv/bin/python -m pytest -q -p no:cacheprovider --timeout=900 --continue-on-collection-errors -k "not test_convert and not test_density_zeros" > /tmp/confirm_$id.tests 2>&1 ); rc_tests=$?
+( cd "$wt" && rm -rf .hypothesis && PYTHONPATH="$wt" /venv/bin/python -m pytest -q -p no:cacheprovider --timeout=900 --continue-on-collection-errors --hypothesis-seed=0 -k "not test_convert and not test_density_zeros" > /tmp/confirm_$id.tests 2>&1 ); rc_tests=$?
 tests=$(tail -1 /tmp/confirm_$id.tests)
 VT4_REPO="$wt" /verif/check "$checkid" quick > /tmp/confirm_$id.check 2>&1; rc_check=$?
 nviol=$(grep -c '^VIOLATION' /tmp/confirm_$id.check)
